@@ -572,6 +572,10 @@ def exact_tolerance(case, model, X, y, Xs, ctx):
         tol = 1e-4
     else:
         tol = G.chol_tol(kappa, kern.smooth_at_zero(case["kernel"]))
+    if kern._contains(case["kernel"], "Prod") and kern._contains(case["kernel"], "Linear"):
+        # a product kernel with a LinearKernel factor is evaluated through root decompositions of its factors (Cholesky with the
+        # dependency's 1e-8 .. 1e-6 jitter on rank-deficient factors, Lanczos above max_cholesky_size): as in C01
+        tol = max(tol, 2e-3 if (s["max_chol"] == 0 and s["fc"][0]) else 1e-6)
     return tol, cov_w, Kss, bshape
 
 
